@@ -26,6 +26,8 @@ CHARS = ["c4", "c0", "c3", "uc4", "h4", "h0", "U4", "w4", "w0", "c24"]
 STRUCTS = ["sii", "scl", "sfd", "sn", "sn2", "sa", "sa3", "as", "as0", "asa", "sbf", "sbf2", "sub", "sub2",
            "san", "sau", "sau2", "u", "us", "ub", "su", "au", "sf", "sfs", "sfc", "sc4", "sw", "sp"]
 ALL_TYPES = SCALARS + ARRAYS + CHARS + STRUCTS
+HEAVY = ["c24", "sw", "sc4", "u", "i02", "su", "sfc", "as0", "au", "sf", "sfs", "asa", "sa3", "sn2", "i22"]   # many spellings: small bound only
+DEEP5 = ["i3", "i0", "sii", "sn", "sa", "as", "san", "sau", "sbf", "sub", "us", "c3"]
 
 CT = dict(int="int", char="char", short="short", long="long", uint="unsigned", bool="_Bool", float="float",
           double="double", ptr="int *", uchar="unsigned char", c16="unsigned short", c32="unsigned", wchar="int")
@@ -191,11 +193,12 @@ def init_text(toks):
 
 
 class Case:
-    __slots__ = ("ty", "toks", "val", "text", "key")
+    __slots__ = ("ty", "toks", "val", "text", "key", "ovr")
 
     def __init__(self, b):
         self.ty, self.toks = b["ty"], b["toks"]
         self.val = {tuple(e["p"]): e["v"] for e in b["val"]}
+        self.ovr = bool(b.get("ovr"))
         self.text = init_text(self.toks)
         self.key = self.ty + " = " + self.text
 
@@ -261,13 +264,14 @@ def batch_source(T, batch, lines=None):
 REJECT_LIMIT = int(os.environ.get("C05_REJECT_LIMIT", "6"))
 
 
-def run_batches(ctx, compiler, tree, T, cases, tag, per=300):
+def run_batches(ctx, compiler, tree, T, cases, tag, per=300, limit=None):
     """Compile and run batches of cases.  Returns (lines by case index, rejected {index: (stage, rc, message)},
     number of cases left unjudged).  A case the compiler rejects (or whose code crashes) is identified by the
     diagnostic's line number (the position in the output), removed, and the rest of its batch is retried; after
     REJECT_LIMIT culprits in one batch the rest of that batch is left unjudged (it is counted)."""
     d = ctx.tmp("prog-%s-%s" % (tag, compiler))
     batches = [cases[k:k + per] for k in range(0, len(cases), per)]
+    limit = limit or REJECT_LIMIT
 
     def one(t):
         bi, batch = t
@@ -288,7 +292,7 @@ def run_batches(ctx, compiler, tree, T, cases, tag, per=300):
                 for m in re.finditer(r"b%d\.c:(\d+):" % bi, err):
                     n = int(m.group(1))
                     culprits |= {i for a, b, i in lines if a <= n <= b}
-                if not culprits or len(rej) >= REJECT_LIMIT:
+                if not culprits or len(rej) >= limit:
                     return res, rej, len(batch), (p.returncode, err[-400:])
                 for i in culprits:
                     rej[i] = ("compile", p.returncode, err[-400:])
@@ -304,7 +308,7 @@ def run_batches(ctx, compiler, tree, T, cases, tag, per=300):
             rest = [(i, c) for i, c in batch if i not in done]
             if r.returncode == 0 and not rest:
                 break
-            if not rest or len(rej) >= REJECT_LIMIT:
+            if not rest or len(rej) >= limit:
                 return res, rej, len(rest), (r.returncode, "program output incomplete")
             rej[rest[0][0]] = ("run", r.returncode, r.stderr[-200:])      # the first case without a line crashed
             batch = rest[1:]
@@ -326,27 +330,54 @@ def run_batches(ctx, compiler, tree, T, cases, tag, per=300):
 
 
 # ---------------------------------------------------------------- classification
+PRIORITY = ["flex-indexed", "flex-elided-then-designator", "flex-initialised-twice", "override-whole-subobject", "braced-string",
+            "range-nested", "range", "nested-designator", "unnamed-bitfield", "bitfield", "union", "anonymous-member",
+            "flex", "string", "unknown-bound", "trailing-comma", "plain"]
+
+
 def features(T, c):
-    """syntactic features of a case (root-cause classes are phrased over these)"""
-    f = set()
-    toks = c.toks
-    tt = T.tt
-    run = 0
+    """syntactic features of a case; the signature names the first one of PRIORITY (root-cause classes)"""
+    f = {"plain"}
+    toks, tt = c.toks, T.tt
+    flex = len(tt[c.ty]["ms"]) if T.has_flex(c.ty) else -1
+    run, depth, flex_items, flex_elided_at, prev_flex = 0, 0, 0, None, False
     for j, t in enumerate(toks):
-        if t["a"] in "FIR":
+        a = t["a"]
+        if a in "FIR":
             run += 1
             if run == 2:
-                f.add("nested-desig")
-            if t["a"] == "R":
-                f.add("range")
-        else:
-            run = 0
-        if t["a"] == "T":
+                f.add("nested-designator")
+            if a == "R":
+                f.add("range-nested" if run >= 2 else "range")
+            if flex_elided_at is not None and depth == 1:
+                f.add("flex-elided-then-designator")
+            if a == "F" and depth == 1 and run == 1 and flex > 0 and t["m"] == tt[c.ty]["ms"][-1]["n"]:
+                if toks[j + 1]["a"] in "IR":
+                    f.add("flex-indexed")
+            continue
+        if a in "VSO" and depth == 1 and flex > 0:
+            # one initialisation of the flexible member = a designated item, or a run of positional items
+            inflex = t["p"][:1] == [flex]
+            if inflex and (run > 0 or not prev_flex):
+                flex_items += 1
+            prev_flex = inflex
+        run = 0
+        if a == "T":
             f.add("trailing-comma")
-        if t["a"] == "S":
+        elif a == "O":
+            depth += 1
+        elif a == "C":
+            depth -= 1
+        elif a == "S":
             f.add("string")
             if j > 0 and toks[j - 1]["a"] == "O":
                 f.add("braced-string")
+        if a in "VS" and depth == 1 and flex > 0 and t["p"][:1] == [flex]:
+            flex_elided_at = j
+    if flex_items >= 2:
+        f.add("flex-initialised-twice")
+    if c.ovr:
+        f.add("override-whole-subobject")
 
     def walk(t):
         d = tt[t]
@@ -358,15 +389,15 @@ def features(T, c):
             if d["k"] == "un":
                 f.add("union")
             for m in d["ms"]:
-                if m["n"] == "" and (m["w"] > 0 or tt[m["t"]]["k"] == "sc"):
+                if m["n"] == "" and tt[m["t"]]["k"] == "sc":
                     f.add("unnamed-bitfield")
                 elif m["w"] > 0:
                     f.add("bitfield")
                 if m["n"] == "" and tt[m["t"]]["k"] != "sc":
-                    f.add("anon")
+                    f.add("anonymous-member")
                 walk(m["t"])
     walk(c.ty)
-    if T.has_flex(c.ty):
+    if flex > 0:
         f.add("flex")
     return f
 
@@ -378,6 +409,7 @@ def classify(T, c, exp, got):
         side = "rejected"
     else:
         e, g = exp.split(), got.split()
+
         def sect(x, a, b):
             if a not in x:
                 return None
@@ -386,11 +418,8 @@ def classify(T, c, exp, got):
             return x[i + 1:j]
         es, gs = sect(e, "S", "A" if "A" in e else "Z"), sect(g, "S", "A" if "A" in g else "Z")
         ea, ga = sect(e, "A", "Z"), sect(g, "A", "Z")
-        ez, gz = sect(e, "Z", "#"), sect(g, "Z", "#")
         sbad, abad = es != gs, ea is not None and ea != ga
-        if ez != gz and not sbad and not abad:
-            side = "size"
-        elif sbad and abad:
+        if sbad and abad:
             side = "both" if gs == ga else "both-differently"
         elif sbad:
             side = "static"
@@ -398,17 +427,13 @@ def classify(T, c, exp, got):
             side = "auto"
         else:
             side = "size"
-    order = ["braced-string", "range", "nested-desig", "trailing-comma", "unnamed-bitfield", "bitfield", "flex",
-             "anon", "union", "string", "unknown-bound"]
-    cls = [x for x in order if x in ft]
-    # overriding: some scalar/subobject is initialised twice
-    return "init:%s:%s" % (side, "+".join(cls) if cls else "plain")
+    return "init:%s:%s" % (side, [x for x in PRIORITY if x in ft][0])
 
 
 # ------------------------------------------------------------------------ compare
-def compare(ctx, tree, T, cases, tag, first=0):
+def compare(ctx, tree, T, cases, tag, first=0, per=300, limit=None):
     idx = [(first + k, c) for k, c in enumerate(cases)]
-    res, rejected, unjudged = run_batches(ctx, "chibicc", tree, T, idx, tag)
+    res, rejected, unjudged = run_batches(ctx, "chibicc", tree, T, idx, tag, per=per, limit=limit)
     wrong = []
     for i, c in idx:
         ctx.note_case(c.key, nontrivial=len(c.toks) >= 4)
@@ -428,7 +453,7 @@ def compare(ctx, tree, T, cases, tag, first=0):
             what = "%s = %s : spec (=gcc) `%s`, chibicc %s" % (
                 T.decl(c.ty, "x"), c.text, exp.split(" ", 2)[2],
                 "`%s`" % got.split(" ", 2)[2] if got else "does not compile/run it: %s" % (rejected[i],))
-            ctx.report(sig, what, case=dict(kind="init", ty=c.ty, toks=c.toks, val=[dict(p=list(p), v=v) for p, v in c.val.items()],
+            ctx.report(sig, what, case=dict(kind="init", ty=c.ty, toks=c.toks, ovr=c.ovr, val=[dict(p=list(p), v=v) for p, v in c.val.items()],
                                             index=i, expected=exp, got=got, source=batch_source(T, [(i, c)])))
     ctx.cov["traces_validated_against_impl"] += len(res)
     return res, unjudged, wrong
@@ -490,11 +515,16 @@ def run(ctx):
     ctx.phase("control")
     out = os.path.join(ctx.scratch, "beh.ndjson")
     # the complete graph for every type at the small bound ...
-    generate(ctx, ALL_TYPES, out, MaxItems=3 if q else 5, MaxDesig=2)
-    # ... and the deeper one; the quick tier takes a seed-selected slice of the types for it
-    deep = vt.subsample(ARRAYS + CHARS + STRUCTS, ctx.seed, 6) if q else ARRAYS + CHARS + STRUCTS
+    generate(ctx, ALL_TYPES, out, MaxItems=3 if q else 4, MaxDesig=2)
+    # ... and one item more: quick = a seed-selected fifth of the lighter types, thorough = a fixed set
+    # of small types at 5 items (no ranges / trailing commas there)
+    light = [t for t in ARRAYS + CHARS + STRUCTS if t not in HEAVY]
+    deep = vt.subsample(light, ctx.seed, 5) if q else DEEP5
     out2 = os.path.join(ctx.scratch, "beh2.ndjson")
-    generate(ctx, deep, out2, MaxItems=5 if q else 6, MaxDesig=2 if q else 2, MaxTC=0 if q else 1, Ranges=not q)
+    if q:
+        generate(ctx, deep, out2, MaxItems=4, MaxDesig=2)
+    else:
+        generate(ctx, deep, out2, MaxItems=5, MaxDesig=2, MaxTC=0, Ranges=False)
     ctx.phase("tlc")
     T, c1 = load(out)
     _, c2 = load(out2)
@@ -507,11 +537,22 @@ def run(ctx):
         raise Infra("generator wrote only %d behaviours" % len(cases))
     if os.environ.get("C05_GCC"):
         gcc_validate(ctx, T, cases, "all")
-    sel = cases
+    # cases in the classes of the open finding D37 (flexible array member designated / initialised twice) are
+    # mostly rejected by the compiler; a seed-selected tenth of them is replayed in small batches so that
+    # they cannot take the other cases of a batch with them
+    FLEXF = {"flex-indexed", "flex-elided-then-designator", "flex-initialised-twice"}
+    prone = [c for c in cases if features(T, c) & FLEXF]
+    pk = set(c.key for c in prone)
+    sel = [c for c in cases if c.key not in pk]
+    prone = vt.subsample(prone, ctx.seed, 10 if q else 4)
     mid = sel[len(sel) // 2]
     ctx.sample(dict(kind="initializer", c_static="static %s = %s;" % (T.decl(mid.ty, "s"), mid.text),
                     c_automatic="%s = %s;" % (T.decl(mid.ty, "a"), mid.text), expected=expect_line(T, 0, mid)))
     res, unjudged, wrong = compare(ctx, tree, T, sel, "init")
+    r2, u2, w2 = compare(ctx, tree, T, prone, "flex", first=len(sel), per=12, limit=12)
+    unjudged += u2
+    if unjudged * 20 > len(sel) and not ctx.violations:      # with violations reported the verdict is already "fails"
+        raise Infra("%d of %d cases could not be judged (their batches did not compile or run)" % (unjudged, len(sel)))
     if unjudged:
         ctx.cov["unjudged_cases_in_failed_batches"] = unjudged
     ctx.phase("replay")
@@ -522,7 +563,7 @@ def run(ctx):
         "excluded (undefined, a constraint violation, or gcc/clang disagree): excess initializers, empty braces, {{scalar}}, too long strings, a range designator that is not last or is followed by brace elision"]
     return ctx.finish(
         rule="case = one completed behaviour of Init.tla (type, initializer token sequence, value map) compiled by the tree's chibicc as a static and as an automatic object, both dumped member-wise and compared with the value map; non-trivial = at least 4 tokens; distinct = distinct (type, initializer text)",
-        exhaustive=not q, extra=dict(behaviours=len(cases), replayed=len(sel), deep_types=deep))
+        exhaustive=not q, extra=dict(behaviours=len(cases), replayed=len(sel) + len(prone), deep_types=deep))
 
 
 def replay(ctx, path):
@@ -533,7 +574,7 @@ def replay(ctx, path):
         out = os.path.join(ctx.scratch, "tt.ndjson")
         generate(ctx, [c["ty"]], out, MaxItems=2, Emit=True)
         T, _ = load(out)
-        compare(ctx, tree, T, [Case(dict(ty=c["ty"], toks=c["toks"], val=c["val"]))], "init", first=c.get("index", 0))
+        compare(ctx, tree, T, [Case(dict(ty=c["ty"], toks=c["toks"], val=c["val"], ovr=c.get("ovr")))], "init", first=c.get("index", 0))
     elif c.get("kind") == "tlc":
         cfg = os.path.join(ctx.scratch, "replay.cfg")
         open(cfg, "w").write(c["cfg"])
